@@ -5,13 +5,17 @@ CONSTANTS
   FlagSet = {0,3}
   MaxUnique = 3
   Uids = {0}
-  Ops = {"names", "close", "match", "send"}
+  Ops = {"names", "close", "send"}
   LimNames = 3
   LimMatch = 2
   LimReplies = 2
   LimCompleted = 3
   LimPerUser = 3
+  SendTy = {1,2}
+  SendSer = {1}
+  SendRs = {0,1}
+  SendFl = {0}
 VIEW View
-INVARIANTS TypeOK QueueNoDup OnlyActiveQueued UniqueNamesDistinct UniqueNamesRecorded SenderIsOrigin RulesWithinLimit PendWithinLimit NoRulesForAbsent PendWellFormed
-PROPERTIES OwnerChangeSignalled UniqueNeverReused RefusalChangesNothing
+INVARIANTS TypeOK QueueNoDup OnlyActiveQueued ReservedNamesNeverOwned NamesWithinLimit UniqueNamesDistinct UniqueNamesRecorded SenderIsOrigin RulesWithinLimit PendWithinLimit NoRulesForAbsent PendWellFormed AtMostOneCopy OnlyLiveRecipients ErrorXorDelivery CompletedWithinLimit PerUserWithinLimit
+PROPERTIES OwnerChangeSignalled UniqueNeverReused RefusalChangesNothing UnicastToOwnerOnly BroadcastOnlyToMatching SlotOnlyForDeliveredCall NoReplyOnlyOnExpiry
 CHECK_DEADLOCK FALSE
